@@ -257,14 +257,13 @@ def kf_default_lost(case, mode, im, dev):
     return False
 
 
-def kf_dot_edge_singleton(case, mode, im, dev):
-    return mode == "vec" and im.get("error") == "ValueError" and "setting an array element with a sequence" in im.get("msg", "")
-
-
 def kf_group_alg_loop(case, mode, im, dev):
     """vectorize=True; an edge whose source is an algebraic (non-state) variable connects two nodes of the same merged group: the vector-valued
-    algebraic variable then depends on itself through the edge operator and the previous call's value is used"""
-    if mode != "vec" or "error" in im:
+    algebraic variable then depends on itself through the edge operator and the previous call's value is used (the stale value is an argument
+    of the generated function; when its shape is (1,) instead of () the first evaluation raises 'setting an array element with a sequence')"""
+    if mode != "vec":
+        return False
+    if "error" in im and not (im.get("error") == "ValueError" and "setting an array element with a sequence" in im.get("msg", "")):
         return False
     flat = M.flatten(case["mdl"])
     grp, sig = structure_groups(flat)
@@ -320,8 +319,7 @@ def kf_parallel_template_edges(case, mode, im, dev):
 
 
 KNOWN = {"C04-parallel-template-edges-novec": (kf_parallel_template_edges, "vectorize=False: several edges with the same EdgeTemplate between the same two variables raise IndexError('invalid index to scalar variable') while vectorize=True compiles them"),
-         "C04-group-algebraic-loop": (kf_group_alg_loop, "vectorize=True: an edge from an algebraic variable to a node of the same merged group makes the vector-valued variable depend on itself; the stale value of the previous evaluation is used"),
-         "C04-dot-edge-valueerror": (kf_dot_edge_singleton, "vectorize=True: function raises 'setting an array element with a sequence' when a single member of a group is the target of a matrix (dot) edge from >= 2 sources")}
+         "C04-group-algebraic-loop": (kf_group_alg_loop, "vectorize=True: an edge from an algebraic variable to a node of the same merged group makes the vector-valued variable depend on itself; the stale value of the previous evaluation is used")}
 
 
 def check(tier, seed, replay=None):
